@@ -374,3 +374,62 @@ func cbTokens(run *DialRun) string {
 	}
 	return encL([][]byte{uniq, ekm})
 }
+
+// RunAuthFirst drives the smtp package directly: smtp.NewClient on the scripted connection and then
+// Client.Auth as the FIRST command (the implicit EHLO happens inside Auth). No TLS.
+func RunAuthFirst(sc *DialScenario) *DialRun {
+	tlsMaterial()
+	run := &DialRun{}
+	srv := newDialServer(sc, sc.Host)
+	conn := NewScriptConn(srv)
+	logger := &capLogger{}
+	if !watchdog(60*time.Second, func() {
+		defer func() {
+			if r := recover(); r != nil {
+				run.Panic = r
+			}
+		}()
+		_ = conn.SetDeadline(time.Now().Add(5 * time.Second))
+		cl, err := smtp.NewClient(conn, sc.Host)
+		if err != nil {
+			run.Err = err
+			_ = conn.Close()
+			return
+		}
+		if sc.Debug {
+			cl.SetDebugLog(true)
+			cl.SetLogger(logger)
+		}
+		if sc.LogAuth {
+			cl.SetLogAuthData()
+		}
+		var a smtp.Auth
+		switch sc.AuthType {
+		case "PLAIN":
+			a = smtp.PlainAuth("", sc.User, sc.Pass, sc.Host, false)
+		case "PLAIN-NOENC":
+			a = smtp.PlainAuth("", sc.User, sc.Pass, sc.Host, true)
+		case "LOGIN":
+			a = smtp.LoginAuth(sc.User, sc.Pass, sc.Host, false)
+		case "LOGIN-NOENC":
+			a = smtp.LoginAuth(sc.User, sc.Pass, sc.Host, true)
+		case "CRAM-MD5":
+			a = smtp.CRAMMD5Auth(sc.User, sc.Pass)
+		case "XOAUTH2":
+			a = smtp.XOAuth2Auth(sc.User, sc.Pass)
+		case "SCRAM-SHA-1":
+			a = smtp.ScramSHA1Auth(sc.User, sc.Pass)
+		default:
+			a = smtp.ScramSHA256Auth(sc.User, sc.Pass)
+		}
+		if err := cl.Auth(a); err != nil {
+			// same wrapping as mail.Client.auth, so that the error classification is shared
+			run.Err = fmt.Errorf("SMTP AUTH failed: %w", err)
+		}
+	}) {
+		run.Panic = "the call did not return within 60 s of real time"
+		_ = conn.Close()
+	}
+	collectDial(run, srv, conn, logger, 0)
+	return run
+}
